@@ -541,3 +541,42 @@ v("c27-polars-descending-flipped", "C27", "polars_model.py",
   "                True if ci in set(op.reverse) else False for ci in op.order_by", "                False if ci in set(op.reverse) else True for ci in op.order_by")
 v("c27-twin-rename-revs", "C27", SM, "                revs = set(extend_node.reverse)\n                rt = [\n                    self.quote_identifier(ci) + (\" DESC\" if ci in revs else \"\")",
   "                reversed_set = set(extend_node.reverse)\n                rt = [\n                    self.quote_identifier(ci) + (\" DESC\" if ci in reversed_set else \"\")", expect="silent")
+
+# ---------------------------------------------------------------- C08
+v("c08-extend-temps-not-deleted", "C08", PB,
+  "            for value_name in data_algebra_temp_cols.values():\n                del res[value_name]\n", "")
+v("c08-extend-subframe-not-reselected", "C08", PB,
+  "            subframe = subframe.loc[:, list(op.ops.keys())]\n", "")
+v("c08-extend-delete-wrong-frame", "C08", PB,
+  "            for value_name in data_algebra_temp_cols.values():\n                del res[value_name]\n",
+  "            for value_name in data_algebra_temp_cols.values():\n                del subframe[value_name]\n")
+v("c08-project-standin-not-dropped", "C08", PB,
+  "        if \"_data_table_temp_col\" in res.columns:\n            res = res.drop(\"_data_table_temp_col\", axis=1, inplace=False)\n", "")
+v("c08-join-scratch-not-deleted", "C08", PB,
+  "        if scratch_col is not None:\n            del res[scratch_col]\n", "")
+v("c08-join-scratch-delete-under-wrong-guard", "C08", PB,
+  "        if scratch_col is not None:\n            del res[scratch_col]\n",
+  "        if (scratch_col is not None) and (len(common_cols) > 0):\n            del res[scratch_col]\n")
+v("c08-twin-join-scratch-drop", "C08", PB,
+  "        if scratch_col is not None:\n            del res[scratch_col]\n",
+  "        if scratch_col is not None:\n            res = res.drop(scratch_col, axis=1, inplace=False)\n", expect="silent")
+v("c08-twin-project-standin-del", "C08", PB,
+  "        if \"_data_table_temp_col\" in res.columns:\n            res = res.drop(\"_data_table_temp_col\", axis=1, inplace=False)\n",
+  "        if \"_data_table_temp_col\" in res.columns:\n            del res[\"_data_table_temp_col\"]\n", expect="silent")
+v("c08-polars-extend-no-select", "C08", "polars_model.py",
+  "        res = res.with_columns(produced_columns)\n        if len(temp_v_columns) > 0:\n            res = res.select(op.columns_produced())\n",
+  "        res = res.with_columns(produced_columns)\n")
+v("c08-polars-extend-select-under-other-guard", "C08", "polars_model.py",
+  "        res = res.with_columns(produced_columns)\n        if len(temp_v_columns) > 0:\n            res = res.select(op.columns_produced())\n",
+  "        res = res.with_columns(produced_columns)\n        if len(temp_v_columns) > 1:\n            res = res.select(op.columns_produced())\n")
+v("c08-twin-polars-extend-select-always", "C08", "polars_model.py",
+  "        res = res.with_columns(produced_columns)\n        if len(temp_v_columns) > 0:\n            res = res.select(op.columns_produced())\n",
+  "        res = res.with_columns(produced_columns)\n        res = res.select(op.columns_produced())\n", expect="silent")
+v("c08-polars-join-no-select", "C08", "polars_model.py",
+  "                res = res.rename({f\"{c}_da_join_tmp_key\": c for c in orphan_keys})\n        res = res.select(op.columns_produced())\n",
+  "                res = res.rename({f\"{c}_da_join_tmp_key\": c for c in orphan_keys})\n")
+v("c08-sql-select-rows-terms-ignore-using", "C08", SM,
+  "        terms = {ci: None for ci in using}\n        suffix = [\"WHERE\"]",
+  "        terms = {ci: None for ci in select_rows_node.sources[0].column_names}\n        suffix = [\"WHERE\"]")
+v("c08-sql-to_sql-using-empty", "C08", SM,
+  "db_model=self, using=None, temp_id_source=temp_id_source", "db_model=self, using=set(), temp_id_source=temp_id_source")
